@@ -264,6 +264,146 @@ class Deextract:
             new = self.rewrite_block(new, q, depth + 1)
         return new
 
+    def expand_cm(self, q: str, recv, call: ast.Call, as_var, body: list, depth: int):
+        """`with new_helper(args) [as v]: BODY` where new_helper is a NEW @contextmanager generator of one of the shapes
+             pre*; try: yield [e] finally/except..: ...          pre*; yield [e]; post*
+        is rewritten to the code it stands for: pre*; [v = e]; try: BODY finally/except ..   /   pre*; [v = e]; BODY; post*"""
+        fn = copy.deepcopy(self.funcs[q])
+        a = fn.args
+        if a.vararg or a.kwarg or any(isinstance(x, ast.Starred) for x in call.args) or any(k.arg is None for k in call.keywords):
+            return None
+        params = [x.arg for x in a.posonlyargs + a.args]
+        bind: dict[str, ast.AST] = {}
+        pre: list[ast.stmt] = []
+        if recv is not None and params:
+            bind[params[0]] = recv
+            params = params[1:]
+        defaults = dict(zip([x.arg for x in (a.posonlyargs + a.args)][-len(a.defaults):] if a.defaults else [], a.defaults))
+        kwdefaults = {x.arg: d for x, d in zip(a.kwonlyargs, a.kw_defaults) if d is not None}
+        given = dict(zip(params, list(call.args)))
+        for k in call.keywords:
+            given[k.arg] = k.value
+        rebound = _stored_names(fn)
+        for p in params + [x.arg for x in a.kwonlyargs]:
+            v = given.get(p, defaults.get(p, kwdefaults.get(p)))
+            if v is None:
+                return None
+            if _is_simple(v) and p not in rebound:
+                bind[p] = v
+            else:
+                pre.append(ast.copy_location(ast.Assign(targets=[ast.Name(id=p, ctx=ast.Store())], value=copy.deepcopy(v)), call))
+        stmts = [s for s in fn.body if not (isinstance(s, ast.Expr) and isinstance(s.value, ast.Constant) and isinstance(s.value.value, str))]
+        yields = [n for n in _own_walk(fn) if isinstance(n, (ast.Yield, ast.YieldFrom))]
+        if len(yields) != 1 or not isinstance(yields[0], ast.Yield):
+            return None
+
+        def is_yield_stmt(s_):
+            return isinstance(s_, ast.Expr) and s_.value is yields[0]
+        idx = next((i for i, s_ in enumerate(stmts) if is_yield_stmt(s_) or (isinstance(s_, ast.Try) and len(s_.body) == 1 and is_yield_stmt(s_.body[0]))), None)
+        if idx is None or any(isinstance(n, ast.Return) and n.value is not None for n in _own_walk(fn)):
+            return None
+        sub = _Subst(bind)
+        head = [sub.visit(s_) for s_ in stmts[:idx]]
+        tail = [sub.visit(s_) for s_ in stmts[idx + 1:]]
+        ys = stmts[idx]
+        yv = yields[0].value
+        bindv = []
+        if as_var is not None:
+            bindv = [ast.copy_location(ast.Assign(targets=[copy.deepcopy(as_var)], value=sub.visit(copy.deepcopy(yv)) if yv is not None else ast.Constant(value=None)), call)]
+        if isinstance(ys, ast.Try):
+            ys = sub.visit(ys)
+            ys.body = list(body)
+            mid = [ys]
+        else:
+            mid = list(body)
+        new = pre + head + bindv + mid + tail
+        for s_ in new:
+            for n in ast.walk(s_):
+                if not hasattr(n, "lineno"):
+                    ast.copy_location(n, call)
+        self.count += 1
+        self.inlined.add(q)
+        self.cur_names |= {n.id for s_ in head + tail for n in ast.walk(s_) if isinstance(n, ast.Name)}
+        return new
+
+    def expand_for(self, q: str, recv, call: ast.Call, loop: ast.For, depth: int):
+        """`for x in new_generator(args): BODY` where the NEW generator has exactly one `yield e` statement and BODY has no
+        break/continue/return of its own: the generator's code with `yield e` replaced by `x = e; BODY`."""
+        def own_jumps(stmts):
+            for st in stmts:
+                for n in ast.walk(st):
+                    if isinstance(n, (ast.Return, ast.Break, ast.Continue)):
+                        return True
+            return False
+        if loop.orelse or own_jumps(loop.body):
+            return None
+        fn = copy.deepcopy(self.funcs[q])
+        a = fn.args
+        if a.vararg or a.kwarg or fn.decorator_list or any(isinstance(x, ast.Starred) for x in call.args) or any(k.arg is None for k in call.keywords):
+            return None
+        ys = [n for n in _own_walk(fn) if isinstance(n, (ast.Yield, ast.YieldFrom))]
+        if len(ys) != 1 or not isinstance(ys[0], ast.Yield) or ys[0].value is None or any(isinstance(n, ast.Return) and n.value is not None for n in _own_walk(fn)):
+            return None
+        params = [x.arg for x in a.posonlyargs + a.args]
+        bind: dict[str, ast.AST] = {}
+        pre: list[ast.stmt] = []
+        if recv is not None and params:
+            bind[params[0]] = recv
+            params = params[1:]
+        defaults = dict(zip([x.arg for x in (a.posonlyargs + a.args)][-len(a.defaults):] if a.defaults else [], a.defaults))
+        kwdefaults = {x.arg: d for x, d in zip(a.kwonlyargs, a.kw_defaults) if d is not None}
+        given = dict(zip(params, list(call.args)))
+        for k in call.keywords:
+            given[k.arg] = k.value
+        rebound = _stored_names(fn)
+        for p in params + [x.arg for x in a.kwonlyargs]:
+            v = given.get(p, defaults.get(p, kwdefaults.get(p)))
+            if v is None:
+                return None
+            if _is_simple(v) and p not in rebound:
+                bind[p] = v
+            else:
+                pre.append(ast.copy_location(ast.Assign(targets=[ast.Name(id=p, ctx=ast.Store())], value=copy.deepcopy(v)), call))
+        self.counter += 1
+        for v_ in sorted(rebound - set(bind)):
+            if v_ in self.cur_names and not any(isinstance(a_, ast.Assign) and a_.targets[0].id == v_ for a_ in pre):
+                bind[v_] = ast.Name(id=f"{v_}_{self.counter}", ctx=ast.Load())
+                self.cur_names.add(f"{v_}_{self.counter}")
+            else:
+                self.cur_names.add(v_)
+        sub = _Subst(bind)
+        body = [sub.visit(s_) for s_ in fn.body if not (isinstance(s_, ast.Expr) and isinstance(s_.value, ast.Constant) and isinstance(s_.value.value, str))]
+        target, consumer = loop.target, loop.body
+
+        class _Y(ast.NodeTransformer):
+            def visit_Expr(self_, node):
+                if isinstance(node.value, ast.Yield):
+                    asg = ast.copy_location(ast.Assign(targets=[copy.deepcopy(target)], value=node.value.value), node)
+                    return [asg] + [copy.deepcopy(st) for st in consumer]
+                return node
+
+            def visit_FunctionDef(self_, node):
+                return node
+            visit_Lambda = visit_AsyncFunctionDef = visit_FunctionDef
+        out = []
+        for s_ in body:
+            r = _Y().visit(s_)
+            out.extend(r if isinstance(r, list) else [r])
+        # a bare `return` of the generator ends the iteration: only accepted as the last statement
+        rets = [n for s_ in out for n in ast.walk(s_) if isinstance(n, ast.Return)]
+        if rets and not (len(rets) == 1 and out and out[-1] is rets[0]):
+            return None
+        if rets:
+            out = out[:-1]
+        new = pre + out
+        for s_ in new:
+            for n in ast.walk(s_):
+                if not hasattr(n, "lineno"):
+                    ast.copy_location(n, call)
+        self.count += 1
+        self.inlined.add(q)
+        return new
+
     def site(self, s: ast.stmt):
         """(call, ctx, target) when the statement is a supported call site."""
         if isinstance(s, ast.Expr) and isinstance(s.value, ast.Call):
@@ -314,6 +454,38 @@ class Deextract:
                     else:
                         s = _Rep().visit(s)
                     out.extend(self.rewrite_block(pre, caller_q, depth))
+                    # `t = E; if t:` with t used nowhere else is `if E:` (same evaluation order): keep the test where rules look for it
+                    if isinstance(s, ast.If) and len(hoisted) == 1:
+                        t_ = hoisted[0][1]
+                        neg = isinstance(s.test, ast.UnaryOp) and isinstance(s.test.op, ast.Not) and isinstance(s.test.operand, ast.Name) and s.test.operand.id == t_
+                        plain = isinstance(s.test, ast.Name) and s.test.id == t_
+                        lastst = out[-1] if out else None
+                        if (plain or neg) and isinstance(lastst, ast.Assign) and len(lastst.targets) == 1 and isinstance(lastst.targets[0], ast.Name) \
+                                and lastst.targets[0].id == t_ and t_.endswith("_result") \
+                                and not any(isinstance(x, ast.Name) and x.id == t_ for arm in (s.body, s.orelse) for st_ in arm for x in ast.walk(st_)):
+                            out.pop()
+                            s.test = ast.copy_location(ast.UnaryOp(op=ast.Not(), operand=lastst.value), s.test) if neg else lastst.value
+            if isinstance(s, ast.With) and len(s.items) == 1 and isinstance(s.items[0].context_expr, ast.Call):
+                q_, recv_ = self.resolve(s.items[0].context_expr, caller_q)
+                if q_ is not None and q_ != caller_q and [ast.unparse(d) for d in self.funcs[q_].decorator_list] in (["contextmanager"], ["contextlib.contextmanager"]):
+                    inner = self.rewrite_block(s.body, caller_q, depth)
+                    new = self.expand_cm(q_, recv_, s.items[0].context_expr, s.items[0].optional_vars, inner, depth)
+                    if new is not None:
+                        out.extend(new)
+                        continue
+                    s.body = inner
+                    out.append(s)
+                    continue
+            if isinstance(s, ast.For) and isinstance(s.iter, ast.Call):
+                q_, recv_ = self.resolve(s.iter, caller_q)
+                if q_ is not None and q_ != caller_q and any(isinstance(n, ast.Yield) for n in _own_walk(self.funcs[q_])):
+                    s.body = self.rewrite_block(s.body, caller_q, depth)
+                    new = self.expand_for(q_, recv_, s.iter, s, depth)
+                    if new is not None:
+                        out.extend(new)
+                        continue
+                    out.append(s)
+                    continue
             call, ctx, target = self.site(s)
             if call is not None:
                 q, recv = self.resolve(call, caller_q)
